@@ -17,7 +17,7 @@ func init() {
 		Rule:           "runs = generated histories of reports, authorizations/bans, clock advances (1 slot to several weeks), simulated time (real rotation loop), restarts, statistics GETs (archived / live first / live second / future / misaligned, with and without insert_false_negatives); every rotation is observed inside migrateReports and checked slot by slot; non-trivial = at least one rotation and one archived-week query happened; distinct = distinct decision signatures",
 		Real:           []string{"rotation loop and migrateReports", "impact-rate loop (repo's test stub for the WattTime value)", "AllDeviceStatsHandler/buildDeviceStats", "allDeviceStats.dat persistence and load", "report/authorization paths"},
 		Stub:           []string{"WattTime service (repo's own test-mode stub)", "socket listeners"},
-		RequiredProbes: []string{"hist.rotation", "hist.stats-archived", "hist.stats-archived-falseneg", "hist.restart", "hist.multi-rotation", "c03.ban-before-rotation"},
+		RequiredProbes: []string{"hist.rotation", "hist.stats-archived", "hist.stats-archived-falseneg", "hist.restart", "hist.multi-rotation", "c03.ban-before-rotation", "c03.empty-week-archived"},
 		RequiredSites:  []string{"migrate.before-shift", "migrate.after-shift", "stats.after-write", "migrate.wake", "stats.postlock"},
 	})
 }
@@ -28,6 +28,27 @@ func runC03(m *Sim) {
 	h := NewHist(w, "srv0", "C03")
 	SetSlot(uint32(m.C.Int("now0", 3000)))
 	h.Boot()
+	if m.C.Chance("quiet-prelude", 1, 5) {
+		// Weeks pass before the GCA registers and before any device exists:
+		// empty weeks are archived (and must stay as they were, too).
+		for i, k := 0, 1+m.C.Int("prelude-ops", 5); i < k; i++ {
+			switch m.C.Weighted("prelude-op", 3, 3, 2, 1) {
+			case 0:
+				h.OpClock()
+			case 1:
+				h.OpTime(time.Duration(20+m.C.Int("ms", 250)) * time.Millisecond)
+			case 2:
+				h.OpStats()
+			case 3:
+				h.OpRestart(1)
+			}
+			h.Check("prelude")
+			h.CheckArchiveImmutable("prelude")
+		}
+		if h.RotSeen > 0 {
+			m.Probe("c03.empty-week-archived")
+		}
+	}
 	h.Setup(1 + m.C.Int("devices", 3))
 	nops := 10 + m.C.Int("ops", 50)
 	for i := 0; i < nops; i++ {
